@@ -242,12 +242,53 @@ def gen_case(ctx, cid, cls):
     nsheets = {"flat": 1, "one": 2, "chain": 3, "two": 3}[shape]
     for d in decls:
         d["sheet"] = r.randrange(nsheets)
-    # probes
+    return {"id": cid, "cls": cls, "docs": docs, "decls": decls, "shape": shape, "probes": None,
+            "orders": None, "xerces": xerces}
+
+
+def untok(t):
+    body = t[1:]
+    return "" if not body else "".join(chr(int(h, 16)) for h in body.split("_"))
+
+
+def values_of(u):
+    return [untok(u[1:])] if u[0] == "s" else [untok(x) for x in u[1:].split("/") if x]
+
+
+def value_nodes(c):
+    """{string: [select expression of an attribute / text node with that string-value]}"""
+    out = {}
+    for j, doc in enumerate(c["docs"]):
+        for e in all_elems(doc):
+            for an, av in e.attrs:
+                if an != "id":
+                    out.setdefault(av, []).append("$d%d//*[@id='%s']/@%s" % (j, e.eid, an))
+            tn = 0
+            for k in e.kids:
+                if k.kind == "t":
+                    tn += 1
+                    out.setdefault(k.text, []).append("$d%d//*[@id='%s']/text()[%d]" % (j, e.eid, tn))
+    return out
+
+
+def gen_probes(ctx, c, tables):
+    """probes aimed at the values the declarations really have (tables = pass 1 of the library)"""
+    r = ctx.rng
+    docs, decls, ndocs = c["docs"], c["decls"], len(c["docs"])
     probes = []
     declared = sorted({d["name"] for d in decls})
+    vnodes = value_nodes(c)
     nprobe = r.choice([3, 4, 5, 6, 8])
     for _ in range(nprobe):
+        name = r.choice(declared)
+        entries = [(j, u) for d, tb in zip(decls, tables) if d["name"] == name for (j, _, u) in tb if values_of(u)]
         j = r.randrange(ndocs)
+        target = None
+        if entries and r.random() < 0.8:
+            tj, u = r.choice(entries)
+            target = r.choice(values_of(u))
+            if r.random() < 0.75:
+                j = tj
         doc = docs[j]
         k = r.random()
         if k < 0.3:
@@ -257,20 +298,33 @@ def gen_case(ctx, cid, cls):
             cx = "$d%d//*[@id='%s']" % (j, e.eid)
             if k > 0.85 and len(e.attrs) > 1:
                 cx += "/@" + r.choice([a for a, _ in e.attrs])
-            elif k > 0.75 and any(c.kind == "t" for c in e.kids):
+            elif k > 0.75 and any(x.kind == "t" for x in e.kids):
                 cx += "/text()[1]"
-        name = r.choice(declared)
-        if r.random() < 0.5:
-            arg, typ = r.choice(ARG_STRING), "S"
+        k = r.random()
+        if k < 0.4:
+            if target is not None and "'" not in target:
+                arg, typ = "'%s'" % target, "S"
+            else:
+                arg, typ = r.choice(ARG_STRING), "S"
+        elif k < 0.7 and entries:
+            # a union of particular attribute / text nodes carrying values the key really has (+ a stray one)
+            want = [r.choice(values_of(r.choice(entries)[1])) for _ in range(r.choice([1, 2, 2, 3, 4]))]
+            if target is not None:
+                want.append(target)
+            if r.random() < 0.4:
+                want.append(r.choice(ATTR_POOL))
+            sel = [r.choice(vnodes[v]) for v in want if v in vnodes]
+            r.shuffle(sel)
+            arg, typ = (" | ".join(sel), "N") if sel else (r.choice(ARG_NODESET), "N")
         else:
             arg, typ = r.choice(ARG_NODESET), "N"
-            if r.random() < 0.25 and ndocs > 1:
+            if r.random() < 0.3 and ndocs > 1:
                 arg = "$d%d%s" % (r.randrange(ndocs), r.choice(["//@x", "//b", "//@y", "//text()", "//a/@*"]))
         probes.append({"doc": j, "ctx": cx, "name": name, "arg": arg, "type": typ})
     # repeated probes (history independence)
     for _ in range(r.choice([1, 2, 3])):
         probes.append(dict(r.choice(probes)))
-    if cls == "unknown":
+    if c["cls"] == "unknown":
         bad = {"doc": 0, "ctx": "$d0", "name": ("nokey", "nokey", "nokey"),
                "arg": r.choice(["'1'", "/..", "//@x"]), "type": "S"}
         if bad["arg"] != "'1'":
@@ -280,8 +334,7 @@ def gen_case(ctx, cid, cls):
     order_b = list(order_a)
     r.shuffle(order_a)
     r.shuffle(order_b)
-    return {"id": cid, "cls": cls, "docs": docs, "decls": decls, "shape": shape, "probes": probes,
-            "orders": [order_a, order_b], "xerces": xerces}
+    c["probes"], c["orders"] = probes, [order_a, order_b]
 
 
 # ---------------------------------------------------------------------------------------------
@@ -473,33 +526,43 @@ def evaluate(ctx, cases, exe, model):
     corr, orc = [], []
     jobs = []
     for c in cases:
-        opts = "xercesdom" if c["xerces"] else ""
-        src = serialize(c["docs"][0])
-        c["jobs"] = {"p1": {"id": c["id"] + ".1", "sheet": pass1_sheet(c), "source": src, "files": files_of(c, False), "opts": opts}}
-        for oi, order in enumerate(c["orders"]):
-            c["jobs"]["o%d" % oi] = {"id": c["id"] + ".o%d" % oi, "sheet": pass2_sheet(c, order), "source": src,
-                                     "files": files_of(c, True), "opts": opts}
-        jobs += list(c["jobs"].values())
+        c["opts"] = "xercesdom" if c["xerces"] else ""
+        c["src"] = serialize(c["docs"][0])
+        c["jobs"] = {"p1": {"id": c["id"] + ".1", "sheet": pass1_sheet(c), "source": c["src"], "files": files_of(c, False), "opts": c["opts"]}}
+        jobs.append(c["jobs"]["p1"])
     res = run_jobs(jobs, exe)
-    lines, expect = [], {}
+    jobs = []
     for c in cases:
-        ctx.count("class:" + c["cls"])
-        ctx.count("docs:%d" % len(c["docs"]))
-        ctx.count("imports:" + c["shape"])
-        maps = [node_maps(d) for d in c["docs"]]
-        allmap = {}
-        for m in maps:
-            allmap.update(m)
+        c["maps"] = [node_maps(d) for d in c["docs"]]
+        c["tables"] = None
         r1 = res[c["jobs"]["p1"]["id"]]
-        has_unknown = any(p["name"][0] == "nokey" for p in c["probes"])
         if r1[0] != "ok":
             orc.append({"what": "pass 1 (no keys involved) failed: %r" % (r1,), "known": None, "replay": replay_text(c, c["jobs"]["p1"], "pass 1 failed"), "harness": True})
             continue
         try:
-            tables = parse_pass1(c, r1[1].decode("utf-8"), maps)
+            c["tables"] = parse_pass1(c, r1[1].decode("utf-8"), c["maps"])
         except (ValueError, KeyError) as ex:
             orc.append({"what": "pass 1 output not understood: %r" % (ex,), "known": None, "replay": replay_text(c, c["jobs"]["p1"], "pass 1"), "harness": True})
             continue
+        if c["probes"] is None:
+            gen_probes(ctx, c, c["tables"])
+        for oi, order in enumerate(c["orders"]):
+            c["jobs"]["o%d" % oi] = {"id": c["id"] + ".o%d" % oi, "sheet": pass2_sheet(c, order), "source": c["src"],
+                                     "files": files_of(c, True), "opts": c["opts"]}
+            jobs.append(c["jobs"]["o%d" % oi])
+    res.update(run_jobs(jobs, exe))
+    lines, expect = [], {}
+    for c in cases:
+        if c["tables"] is None:
+            continue
+        ctx.count("class:" + c["cls"])
+        ctx.count("docs:%d" % len(c["docs"]))
+        ctx.count("imports:" + c["shape"])
+        maps, tables = c["maps"], c["tables"]
+        allmap = {}
+        for m in maps:
+            allmap.update(m)
+        has_unknown = any(p["name"][0] == "nokey" for p in c["probes"])
         for d, tb in zip(c["decls"], tables):
             ctx.count("decl-matches:%s" % ("0" if not tb else "1-3" if len(tb) < 4 else ">3"))
             if any(u.startswith("n") and u.count("/") >= 1 for _, _, u in tb):
@@ -712,11 +775,11 @@ def run(ctx):
     known = {k["key"]: k for k in ctx.known.for_property("C15")}
     run_corpus(ctx, exe, known)
 
-    n = 160 if not ctx.thorough else 2500
+    n = 400 if not ctx.thorough else 4000
     cases = make_cases(ctx, n, "g")
-    ctx.cov["samples"] = ["%s: %s | probes %s" % (c["cls"], "; ".join("%s match=%s use=%s" % (d["name"][0], d["match"], d["use"]) for d in c["decls"]),
-                                                  "; ".join("key('%s',%s)@%s" % (p["name"][1], p["arg"], p["ctx"]) for p in c["probes"][:3])) for c in cases[:6]]
     corr, orc = evaluate(ctx, cases, exe, model)
+    ctx.cov["samples"] = ["%s: %s | probes %s" % (c["cls"], "; ".join("%s match=%s use=%s" % (d["name"][0], d["match"], d["use"]) for d in c["decls"]),
+                                                  "; ".join("key('%s',%s)@%s" % (p["name"][1], p["arg"], p["ctx"]) for p in c["probes"][:3])) for c in cases[:6] if c["probes"]]
     new = [o for o in orc if not (o["known"] and o["known"] in known)]
     if (corr or not proved or not model) and not new and not ctx.thorough:
         ctx.escalated = True
